@@ -838,4 +838,37 @@ func (c *Ctx) c12NilResults() {
 	if n == 0 {
 		c.ok("T6", key, c.pos(f.Pos()), "results are not collected through reflect.Append")
 	}
+	// second obligation: "returns all results (as a multiset)". A result is replaced by the zero value of the element type
+	// only where it is no value at all (IsValid() false): any wider condition (IsZero, IsNil) rewrites genuine results —
+	// 0, "", false returned into a slice of interfaces come back as nil.
+	{
+		var zeros []*ssa.Call
+		allInstrs(f, func(in ssa.Instruction) {
+			if cl, ok := in.(*ssa.Call); ok {
+				switch calleeFull(&cl.Call) {
+				case "reflect.Zero", "reflect.New":
+					zeros = append(zeros, cl)
+				}
+			}
+		})
+		invalidEdge := func(b *ssa.BasicBlock, k int) bool {
+			ifi, ok := b.Instrs[len(b.Instrs)-1].(*ssa.If)
+			if !ok {
+				return false
+			}
+			v, ts := boolTest(ifi)
+			cl, isCall := v.(*ssa.Call)
+			return isCall && calleeFull(&cl.Call) == "(reflect.Value).IsValid" && k == 1-ts
+		}
+		bad := ""
+		for _, z := range zeros {
+			if hit := pathPruned(f, nil, func(ssa.Instruction) bool { return false }, func(in ssa.Instruction) bool { return in == ssa.Instruction(z) }, invalidEdge); hit != nil {
+				bad = c.ipos(z)
+			}
+		}
+		if len(zeros) > 0 {
+			c.check(bad == "", "T6", key+":only-for-no-value", c.pos(f.Pos()), "a result is replaced by the zero value only where IsValid() answered false",
+				"the substitution at "+bad+" can be reached without IsValid() having answered false: results that are values (a zero integer, an empty string, a typed nil) are rewritten, and the multiset returned is no longer the multiset of what the invocations returned")
+		}
+	}
 }
